@@ -13,6 +13,7 @@ use rateslib::calendars::{
 use std::panic;
 
 mod probe_dual;
+mod probe_curves;
 
 fn js(s: &str) -> String {
     s.replace('\\', "\\\\").replace('"', "\\\"")
@@ -385,7 +386,7 @@ fn main() {
         }
         "probe" => {
             let func = args.get(2).map(|s| s.as_str()).unwrap_or("");
-            let found = probe_dateroll(func) || probe_months(func) || probe_dual::probe(func);
+            let found = probe_dateroll(func) || probe_months(func) || probe_dual::probe(func) || probe_curves::probe(func);
             if !found {
                 println!("{{\"probe\":\"{}\",\"result\":\"no failing input found\"}}", func);
             }
